@@ -131,11 +131,12 @@ def AttrTy.key : AttrTy → String
   | .cls | .ocls | .tcls => "class"
   | .sty | .psty | .opsty => "style"
 
-/-- keys of the `Attr<K, V>` items (these must be distinct within one element) -/
+/-- keys of the `Attr<K, V>` items (these must be distinct within one element; an optional `style`
+stands for `Style<Option<_>>`, of which an element can have several, like any `style` item) -/
 def namedKeys : List AttrTy → List String
   | [] => []
   | .str n :: r => n :: namedKeys r
-  | .ostr n :: r => n :: namedKeys r
+  | .ostr n :: r => if n == "style" then namedKeys r else n :: namedKeys r
   | .bool n :: r => n :: namedKeys r
   | _ :: r => namedKeys r
 
@@ -618,6 +619,7 @@ def AttrVal.isClassItem : AttrVal → Bool
 
 def AttrVal.isStyleItem : AttrVal → Bool
   | .sty _ | .psty _ _ | .opsty _ _ => true
+  | .ostr n _ => n == "style"
   | _ => false
 
 /-- writes the whole `class` attribute (`Class<String>`, `Class<Option<String>>`) -/
@@ -625,8 +627,11 @@ def AttrVal.isWholeClass : AttrVal → Bool
   | .cls _ | .ocls _ => true
   | _ => false
 
+/-- writes the whole `style` attribute (`Style<String>`; `Style<Option<String>>` is the optional
+named attribute `style`, `.ostr "style"`) -/
 def AttrVal.isWholeStyle : AttrVal → Bool
   | .sty _ => true
+  | .ostr n _ => n == "style"
   | _ => false
 
 /-- the `class` attribute has a whole-value writer and at least one more item: a rebuild of the
@@ -760,5 +765,49 @@ def View.nodelessBranchList : List View → Bool
   | [] => false
   | v :: vs => View.nodelessBranch v || View.nodelessBranchList vs
 end
+
+/-! ## attribute spreading (`view.add_any_attr(attr)`)
+
+Type erasure and the `into_cloneable()` / `into_cloneable_owned()` conversions of attribute values
+(`String` / `&str` / `Cow` -> `Arc<str>`, …) are **transparent** in the model: `AttrVal` has one
+string type, so `Class<String>`, `Class<&str>`, `Class<Arc<str>>`, `Class<Oco<str>>` and the values
+those conversions produce are one and the same `AttrVal`.  Spreading is defined by what it means:
+the attribute is added, as the LAST item, to every top-level element of the view (text and `()`
+ignore it; `AnyView` hands it to its content). -/
+
+mutual
+def Ty.spread (a : AttrTy) : Ty → Ty
+  | .elem tag as c => .elem tag (as ++ [a]) c
+  | .tuple ts => .tuple (Ty.spreadList a ts)
+  | .opt t => .opt (Ty.spread a t)
+  | .either ts => .either (Ty.spreadList a ts)
+  | .vec t => .vec (Ty.spread a t)
+  | .arr n t => .arr n (Ty.spread a t)
+  | t => t
+def Ty.spreadList (a : AttrTy) : List Ty → List Ty
+  | [] => []
+  | t :: ts => Ty.spread a t :: Ty.spreadList a ts
+end
+
+mutual
+def View.spread (a : AttrVal) : View → View
+  | .elem tag as c => .elem tag (as ++ [a]) c
+  | .tuple vs => .tuple (View.spreadList a vs)
+  | .osome v => .osome (View.spread a v)
+  | .either n i v => .either n i (View.spread a v)
+  | .vec vs => .vec (View.spreadList a vs)
+  | .any t v => .any (Ty.spread a.ty t) (View.spread a v)
+  | v => v
+def View.spreadList (a : AttrVal) : List View → List View
+  | [] => []
+  | v :: vs => View.spread a v :: View.spreadList a vs
+end
+
+/-- a `class:name=bool` item whose name is not ONE class token (padded, inner white space, empty):
+`classList.add` / `remove` reject it (`InvalidCharacterError` / `SyntaxError`); class of F-C03-7 -/
+def invalidToggle (as : List AttrVal) : Bool :=
+  as.any fun
+    | .tcls n _ => (classTokenError n).isSome
+    | _ => false
 
 end Leptos.View
